@@ -52,6 +52,12 @@ def make_graph(shape, n, rnd, outcome):
     elif shape == 'split':
         # a script that asks for its dependencies one by one: tokens are taken and returned repeatedly
         files['top.do'] = scen.node_do(leaves, sl(), split=True)
+    elif shape == 'nestedj1':
+        # a script runs `redo -j1` on all the leaves while the outer jobserver has slots to spare: the inner command is serial
+        # whatever the outer -j is
+        files['top.do'] = (scen.TRACE_HDR + 'echo "S $1 $$ $PPID" >&9\nredo -j1 %s\necho "W+ $1 $$" >&9\necho "W- $1 $$" >&9\necho top > "$3"\necho "E $1 $$ 0" >&9\n'
+                           % ' '.join(leaves))
+        files['default.leaf.do'] = scen.leaf_do('sleep 0.05')
     elif shape == 'sharedfail':
         # several groups need one slow target that fails: all but one of them meet it locked, wait, and find it failed
         files['sfail.do'] = scen.TRACE_HDR + 'echo "S $1 $$ $PPID" >&9\necho "W+ $1 $$" >&9\nsleep 0.3\necho "W- $1 $$" >&9\necho "E $1 $$ 4" >&9\nexit 4\n'
@@ -169,6 +175,8 @@ def case(item):
         # behind, so the bound is only demanded for successful and failing builds.
         ov = max_work_overlap(recs)
         bound = slots + (1 if log else 0)
+        if shape == 'nestedj1':
+            bound = 1 + (1 if log else 0)          # everything that works runs below the inner `redo -j1`
         sets['overlap_seen'] = ['%d/%d%s' % (ov, slots, '+log' if log else '')]
         if shape.startswith('cheatn'):
             pass        # a script that starts its own `redo -jN` adds that jobserver's slots: the outer limit does not apply
@@ -176,7 +184,7 @@ def case(item):
             if ov > bound:
                 anoms.append(dict(key='overlap-exceeds-j:%s' % ('log' if log else 'nolog'),
                                   what='%d work sections at once with %d slots%s' % (ov, slots, ' (+1 allowed for the followed job)' if log else '')))
-            if ov == slots:
+            if ov == slots and shape != 'nestedj1':
                 obs['runs_reaching_full_parallelism'] = 1
             if ov == slots + 1:
                 obs['runs_using_the_extra_followed_slot'] = 1
@@ -263,7 +271,7 @@ def gate_layer(col, configs, depth, deadline):
         level += 1
 
 
-RULE = ('builds of fan / nested fan / diamond / chain / one-by-one / shared-failing (three groups wait for one slow target that fails) graphs of 6-60 leaves with jittered work sections, (i) under a jobserver '
+RULE = ('builds of fan / nested fan / diamond / chain / one-by-one / shared-failing (three groups wait for one slow target that fails) / nested-serial (a script runs `redo -j1` on the leaves while the outer jobserver has slots to spare: at most one of them works at a time) graphs of 6-60 leaves with jittered work sections, (i) under a jobserver '
         'owned by the harness (MAKEFLAGS pipe with N-1 bytes, harness-owned cheat pipe) via redo-ifchange and redo, (ii) as redo -jN; N in '
         '1..8(16); with log capture (follower attached, cheating possible) and with REDO_LOG=0; outcomes: success, failing leaves, failing '
         'leaves with --keep-going, and error exits of a nested redo-ifchange that still has a job running (dependency cycle, a rule that is a directory, '
@@ -306,6 +314,11 @@ def items_for(tier, rnd):
                 for outcome in ('fail', 'failk'):
                     for mode, cmd in (('inh', 'redo-ifchange'), ('own', 'redo')):
                         items.append((mode, 'sharedfail', 6, slots, log, outcome, cmd, rnd.randrange(10 ** 6)))
+    for rep in range(1 if quick else 6):
+        for slots in (3, 4, 8):
+            for log in (False, True):
+                for mode, cmd in (('inh', 'redo-ifchange'), ('own', 'redo')):
+                    items.append((mode, 'nestedj1', 6, slots, log, 'ok', cmd, rnd.randrange(10 ** 6)))
     for rep in range(1 if quick else 8):
         for outcome in ('err-cycle', 'err-tmpdir', 'err-empty'):
             for slots in (2, 3, 4):
